@@ -201,6 +201,24 @@ func vC06Operand(env *Zlisp, key string, i, j int64) ([]Sexp, int64) {
 	}
 }
 
+// vC06OperandText: the same operand expressions as source text.
+func vC06OperandText(key string, i, j int64) (string, int64) {
+	switch vChoice(key, 6) {
+	case 0:
+		return "i", i
+	case 1:
+		return "i + 1", i + 1
+	case 2:
+		return "j - 1", j - 1
+	case 3:
+		return "i * 2 - 1", i*2 - 1
+	case 4:
+		return "j - i", j - i
+	default:
+		return "1 + i * 2", 1 + i*2
+	}
+}
+
 // vh_C06_selectors: a[e], a[e1:e2], a[:e], a[e:], a[:] with compound
 // bound expressions bind tighter than every operator around them and mean
 // Go-style indexing/slicing of the array: the block's value equals the
@@ -215,7 +233,7 @@ func vh_C06_selectors() {
 	j := vInt64("j")
 	vAssume(i >= -1 && i <= 3 && j >= -1 && j <= 5)
 	elems := []int64{10, 20, 30, 40}
-	for _, f := range vT(env, `(def arr [10 20 30 40]) (def i 9001) (def j 9002) (def h (hash k: 7 m: 9)) (defn dbl [u] (* u 2))`, &SexpInt{Val: i}, &SexpInt{Val: j}) {
+	for _, f := range vT(env, `(def arr [10 20 30 40]) (def i 9001) (def j 9002) (def h (hash k: 7 m: 9)) (defn dbl [u] (* u 2)) (def recs [(hash a: 100 b: 101) (hash a: 200 b: 201)]) (def h2 (hash list: [10 20 30 40]))`, &SexpInt{Val: i}, &SexpInt{Val: j}) {
 		if _, err, p := vEval(env, f); err != nil || p {
 			vAssert(false, "selectors-setup")
 			return
@@ -252,7 +270,58 @@ func vh_C06_selectors() {
 		iv, isI := res.(*SexpInt)
 		vAssert(isI && iv.Val == want, label)
 	}
-	switch vChoice("shape", 9) {
+	switch vChoice("shape", 13) {
+	case 9: // a field of an indexed element, as the right operand of an operator and of an assignment
+		t1, v1 := vC06OperandText("e1", i, j)
+		res, err, p := vEvalString(env, "{x = 1 + recs["+t1+"].b * 2}")
+		vAssert(!p, "chained-selector-no-panic")
+		if !p && v1 >= 0 && v1 < 2 {
+			vAssert(err == nil, "chained-selector-succeeds")
+			if err == nil {
+				intIs(res, 1+(100*(v1+1)+1)*2, "field-of-indexed-element-binds-tightest")
+			}
+		}
+	case 10: // the same as a call argument and in an if condition
+		t1, v1 := vC06OperandText("e1", i, j)
+		res, err, p := vEvalString(env, "{(dbl {recs["+t1+"].b}) + 1}")
+		vAssert(!p, "chained-selector-argument-no-panic")
+		r2, err2, p2 := vEvalString(env, "{ r := 0; if not recs["+t1+"].b { r = 7 }; if recs["+t1+"].b > 150 { r = r + 1 } else { r = r + 2 }; r }")
+		vAssert(!p2, "chained-selector-condition-no-panic")
+		if !p && !p2 && v1 >= 0 && v1 < 2 {
+			vAssert(err == nil && err2 == nil, "chained-selector-in-condition-succeeds")
+			if err == nil {
+				intIs(res, (100*(v1+1)+1)*2+1, "field-of-indexed-element-as-argument")
+			}
+			if err2 == nil {
+				want := int64(2)
+				if 100*(v1+1)+1 > 150 {
+					want = 1
+				}
+				intIs(r2, want, "field-of-indexed-element-in-condition")
+			}
+		}
+	case 11: // index of a field: 1 + h2.list[e] * 3
+		t1, v1 := vC06OperandText("e1", i, j)
+		res, err, p := vEvalString(env, "{1 + h2.list["+t1+"] * 3}")
+		vAssert(!p, "index-of-field-no-panic")
+		if !p && inRange(v1) {
+			vAssert(err == nil, "index-of-field-succeeds")
+			if err == nil {
+				intIs(res, 1+elems[v1]*3, "index-of-field-binds-tightest")
+			}
+		}
+	case 12: // assignment through a chained selector, then read back
+		t1, v1 := vC06OperandText("e1", i, j)
+		_, err, p := vEvalString(env, "{recs["+t1+"].b = i + 5}")
+		vAssert(!p, "chained-assign-no-panic")
+		if !p && v1 >= 0 && v1 < 2 {
+			vAssert(err == nil, "chained-assign-succeeds")
+			res, err2, p2 := vEvalString(env, "{0 + recs["+t1+"].b}")
+			vAssert(!p2 && err2 == nil, "chained-read-back-succeeds")
+			if !p2 && err2 == nil && err == nil {
+				intIs(res, i+5, "chained-assignment-stores-right-side-value")
+			}
+		}
 	case 0: // arr[e]
 		t1, v1 := vC06Operand(env, "e1", i, j)
 		res, err, p := evalValue(s("arr"), vA(env, t1...))
